@@ -70,6 +70,8 @@ type c19Shared struct {
 	eid                      *object.ExtendedSpatialID
 	ints                     []int64
 	strs                     []string
+	emptyCap                 []string // length 0, capacity 8, over a backing array filled with sentinels
+	badList                  []string // valid prefix that expands to > 1000 voxels, then a malformed ID
 }
 
 func (s *c19Shared) snapshot() string {
@@ -92,7 +94,7 @@ func (s *c19Shared) snapshot() string {
 	for _, q := range append(append([]*object.QuadkeyAndVerticalID{}, s.qv...), s.qvBit...) {
 		fmt.Fprintf(&b, "%v;", *q)
 	}
-	fmt.Fprintf(&b, "%v|%v", *s.eid, s.ints)
+	fmt.Fprintf(&b, "%v|%v|%q|%q", *s.eid, s.ints, s.emptyCap[:cap(s.emptyCap)], s.badList)
 	return b.String()
 }
 
@@ -141,6 +143,9 @@ func c19Build() (*c19Shared, []c19Inst) {
 	s.eid, _ = object.NewExtendedSpatialID("7/24/53/5/19")
 	s.ints = []int64{5, -3, 5, 9, 0, -3}
 	s.strs = []string{"b", "a", "b", "c", "a"}
+	backing := []string{"sentinel-0", "sentinel-1", "sentinel-2", "sentinel-3", "sentinel-4", "sentinel-5", "sentinel-6", "sentinel-7"}
+	s.emptyCap = backing[:0]
+	s.badList = []string{"10/5/7/10/3", "10/6/7/10/3", "10/5/8/10/-4", "10/5/7/10"}
 
 	groupsV := func(g []*object.FromExtendedSpatialIDToQuadkeyAndVerticalID, err error) string {
 		if err != nil {
@@ -281,6 +286,30 @@ func c19Build() (*c19Shared, []c19Inst) {
 		I("transform.GetExtendedSpatialIdsWithinRadiusOfLine(measure, lat 75, same zoom and radius)", func() string {
 			return sortedJoin(transform.GetExtendedSpatialIdsWithinRadiusOfLine(s.hiA, s.hiB, 30, 20, 20, false))
 		}),
+		// calls that fail after a valid prefix, and a shared empty list with spare capacity
+		I("integrate.ChangeExtendedSpatialIdsZoom(fails after valid prefix)", func() string {
+			l, e := integrate.ChangeExtendedSpatialIdsZoom(s.badList, 13, 13)
+			return fmt.Sprint(len(l), e)
+		}),
+		I("integrate.MergeExtendedSpatialIds(fails after valid prefix)", func() string {
+			l, e := integrate.MergeExtendedSpatialIds(s.badList, 9, 9)
+			return fmt.Sprint(len(l), e)
+		}),
+		I("transform.ConvertExtendedSpatialIDsToQuadkeysAndVerticalIDs(fails after valid prefix)", func() string {
+			l, e := transform.ConvertExtendedSpatialIDsToQuadkeysAndVerticalIDs(s.badList, 11, 11, 0, 0)
+			return fmt.Sprint(len(l), e)
+		}),
+		I("integrate.ChangeExtendedSpatialIdsZoom(same voxels as the failing list)", func() string { return sortedJoin(integrate.ChangeExtendedSpatialIdsZoom(s.badList[:3], 12, 11)) }),
+		I("detector.CheckExtendedSpatialIdsArrayOverlap(empty list with capacity)", func() string {
+			g, e := detector.CheckExtendedSpatialIdsArrayOverlap(s.emptyCap, s.ext)
+			return fmt.Sprint(g, e)
+		}),
+		I("detector.CheckExtendedSpatialIdsArrayOverlap(empty list with capacity, other list)", func() string {
+			g, e := detector.CheckExtendedSpatialIdsArrayOverlap(s.emptyCap, s.nest)
+			return fmt.Sprint(g, e)
+		}),
+		I("detector.CheckSpatialIdsArrayOverlap(empty list with capacity)", func() string { g, e := detector.CheckSpatialIdsArrayOverlap(s.emptyCap, s.sp); return fmt.Sprint(g, e) }),
+		I("operated.GetNspatialIdsAroundVoxcels(empty list with capacity)", func() string { return sortedJoin(operated.GetNspatialIdsAroundVoxcels(s.emptyCap, 1, 1)) }),
 		// common / spatial / object
 		I("common.set-helpers", func() string {
 			u, d, i := common.Union(s.ints, s.ints[2:]), common.Difference(s.ints, s.ints[3:]), common.Intersect(s.strs, s.strs[1:])
